@@ -71,7 +71,7 @@ def bin_mir(snap):
     out = os.path.join(snap, 'resolved-bin.mir')
     t0 = time.time()
     with Lock('snap'):
-        if os.path.exists(out): return out, 0.0
+        if os.path.exists(out) and os.path.exists(os.path.join(snap, 'resolved-lib.mir')): return out, 0.0
         env = dict(ENV, CARGO_TARGET_DIR=os.path.join(CACHE, 'target'))
         os.utime(os.path.join(snap, 'crates', 'resolved', 'src', 'main.rs'))
         cmd = ['cargo', 'rustc', '--offline', '--bin', 'resolved', '--', '-Zunpretty=mir', '-C', 'debug-assertions=off', '-C', 'overflow-checks=on']
@@ -80,6 +80,14 @@ def bin_mir(snap):
             sys.stderr.write(p.stderr.decode()[-4000:])
             raise SystemExit('INCONCLUSIVE: MIR dump of the resolved binary failed (does /repo compile?)')
         open(out + '.tmp', 'wb').write(p.stdout); os.rename(out + '.tmp', out)
+        # the binary's library half (crates/resolved/src/lib.rs: fs.rs, metrics.rs)
+        os.utime(os.path.join(snap, 'crates', 'resolved', 'src', 'lib.rs'))
+        cmd = ['cargo', 'rustc', '--offline', '--lib', '--', '-Zunpretty=mir', '-C', 'debug-assertions=off', '-C', 'overflow-checks=on']
+        p = subprocess.run(cmd, cwd=os.path.join(snap, 'crates', 'resolved'), env=env, stdout=subprocess.PIPE, stderr=subprocess.PIPE)
+        if p.returncode != 0 or len(p.stdout) < 1000:
+            sys.stderr.write(p.stderr.decode()[-4000:])
+            raise SystemExit('INCONCLUSIVE: MIR dump of the resolved library failed (does /repo compile?)')
+        open(os.path.join(snap, 'resolved-lib.mir'), 'wb').write(p.stdout)
     return out, time.time() - t0
 
 
@@ -89,7 +97,7 @@ def world(log=print, with_bin=False):
     snap, h, dt = snapshot(log)
     files = [os.path.join(snap, c + '.mir') for c in CRATES]
     if with_bin:
-        f, dt2 = bin_mir(snap); files.append(f); dt += dt2
+        f, dt2 = bin_mir(snap); files.append(os.path.join(snap, 'resolved-lib.mir')); files.append(f); dt += dt2
     w = World(files, snap)
     w.snap = snap; w.tree_hash = h; w.mir_seconds = dt
     return w
